@@ -406,3 +406,94 @@ package mpx
 //@   let N0 = ghost(nSent, 0)
 //@   ensures[C07] ghost(nAdd, s.sendWindow) == A0 || (ghost(nAdd, s.sendWindow) == A0 + 1 && ghost(lastAdd, s.sendWindow) == 0 - len(data))
 //@   ensures[C07] ghost(nSent, 0) == N0 || (ghost(nSent, 0) == N0 + 1 && ghost(lastSentLen, 0) == len(data) && (ghost(nAdd, s.sendWindow) == A0 + 1 || ghost(lastStatusOK, 0) == 1))
+
+// ---- client state (C19): exactly one of Connected / Disconnected, Close terminal and idempotent,
+// one dial routine at a time, growth capped by the configured maximum
+//
+// ghost(flagSet, f) is the state of flag f as this call sees it under the client's mutex.
+// ghost(nRun, 0): dial routines started; ghost(nConnect, 0): calls of connect(); ghost(lastLen, 0):
+// the last connection count read.
+
+//@ package github.com/basecomplextech/spec/mpx
+
+//@ define XOR(c) = ((ghost(flagSet, c.connected_) == 1 && ghost(flagSet, c.disconnected_) == 0) || (ghost(flagSet, c.connected_) == 0 && ghost(flagSet, c.disconnected_) == 1))
+//@ define CONNS(c) = cast(ghost(ptrObj, c.conns), clientConns)
+//@ define CLI(c) = (c != nil && (c.connecting.Valid ==> c.connecting.Value != nil) && ghost(ptrObj, c.conns) > 0 && (forall i :: 0 <= i && i < len(CONNS(c).conns) ==> CONNS(c).conns[i] != nil) && c.closed_ != nil && c.connected_ != nil && c.disconnected_ != nil && c.closed_ != c.connected_ && c.closed_ != c.disconnected_ && c.connected_ != c.disconnected_)
+
+//@ func newClientConns
+//@   trusted
+//@   ensures result != nil && len(result.conns) == 0
+//@ func (*clientConns).len
+//@   trusted
+//@   modifies ghost.lastLen at 0
+//@   ensures result == ghost(lastLen, 0) && result >= 0
+//@ func (*clientConns).add
+//@   trusted
+//@   ensures result != nil
+//@ func (*clientConns).remove
+//@   trusted
+//@   ensures result != nil
+//@ func (*clientConns).roundRobin
+//@   trusted
+//@   ensures result1 ==> result0 != nil
+//@ iface internalConn.Close
+//@ iface Conn.Close
+
+//@ package github.com/basecomplextech/baselibrary/async
+//@ func Run
+//@   trusted
+//@   modifies ghost.nRun at 0
+//@   ensures result != nil && ghost(nRun, 0) == old(ghost(nRun, 0)) + 1
+
+//@ package github.com/basecomplextech/spec/mpx
+
+// one dial routine at a time: a second caller gets the routine that is already running
+//@ func (*client).connect
+//@   safety[C19]
+//@   requires c != nil && (c.connecting.Valid ==> c.connecting.Value != nil)
+//@   modifies opt.*
+//@   modifies ghost.nRun at 0
+//@   ensures[C19] result1.Code == "ok" && result0 != nil && c.connecting.Valid
+//@   ensures[C19] old(c.connecting.Valid) ==> ghost(nRun, 0) == old(ghost(nRun, 0))
+//@   ensures[C19] !old(c.connecting.Valid) ==> ghost(nRun, 0) == old(ghost(nRun, 0)) + 1
+
+//@ func (*client).onConnChannelsReached
+//@   safety[C19]
+//@   requires CLI(c)
+//@   modifies opt.*
+//@   modifies ghost.nRun at 0
+//@   modifies ghost.lastLen at 0
+//@   ensures[C19] ghost(nRun, 0) == old(ghost(nRun, 0)) || (ghost(nRun, 0) == old(ghost(nRun, 0)) + 1 && ghost(lastLen, 0) < c.options.ClientMaxConns)
+//@   ensures[C19] c.options.ClientMaxConns <= 0 ==> ghost(nRun, 0) == old(ghost(nRun, 0))
+
+//@ func (*client).onConnClosed
+//@   safety[C19]
+//@   requires CLI(c) && XOR(c)
+//@   modifies opt.*
+//@   modifies ghost.nRun at 0
+//@   modifies ghost.lastLen at 0
+//@   modifies ghost.flagSet
+//@   ensures[C19] XOR(c) && ghost(flagSet, c.closed_) == old(ghost(flagSet, c.closed_))
+//@   ensures[C19] ghost(lastLen, 0) > 0 ==> ghost(flagSet, c.connected_) == old(ghost(flagSet, c.connected_))
+//@   ensures[C19] ghost(lastLen, 0) == 0 ==> ghost(flagSet, c.connected_) == 0
+
+//@ func (*client).Close
+//@   safety[C19]
+//@   requires CLI(c) && XOR(c)
+//@   modifies opt.*
+//@   modifies ghost.flagSet
+//@   ensures[C19] result.Code == "ok" && ghost(flagSet, c.closed_) == 1 && XOR(c)
+//@   ensures[C19] old(ghost(flagSet, c.closed_)) == 0 ==> ghost(flagSet, c.connected_) == 0 && ghost(flagSet, c.disconnected_) == 1 && !c.connecting.Valid
+//@   ensures[C19] old(ghost(flagSet, c.closed_)) == 1 ==> ghost(flagSet, c.connected_) == old(ghost(flagSet, c.connected_)) && ghost(flagSet, c.disconnected_) == old(ghost(flagSet, c.disconnected_))
+//@   loop 1 invariant 0 - 1 <= rangeindex && rangeindex < len(conns.conns) && conns == CONNS(c)
+
+// after Close every call is refused; otherwise the caller gets a connection or the dial future
+//@ func (*client).conn
+//@   safety[C19]
+//@   requires CLI(c) && XOR(c)
+//@   modifies opt.*
+//@   modifies ghost.nRun at 0
+//@   modifies ghost.flagSet
+//@   ensures[C19] XOR(c) && ghost(flagSet, c.closed_) == old(ghost(flagSet, c.closed_))
+//@   ensures[C19] old(ghost(flagSet, c.closed_)) == 1 ==> result2.Code == "closed" && result0 == nil && result1 == nil
+//@   ensures[C19] result2.Code == "ok" ==> result0 != nil || result1 != nil
